@@ -307,3 +307,153 @@ def replay_eval(ctx, g, o, inputs):
             'observed': ('killed by signal %d (SIGFPE = 8): the unevaluated operand was evaluated' % -p.returncode) if crashed else out.strip(),
             'expected': 'C++ does not evaluate the right operand / yields the common type',
             'program': os.path.join(replaylib.VERIF, 'replay', 'out', 'C14__replay_eval.cpp'), 'argument': which}
+
+
+# ------------------------------------------------------------------ literal typing (primitive::load)
+
+LIT_PROG = r'''
+#include <occa/types/primitive.hpp>
+#include <cstdio>
+#include <cstring>
+#include <cmath>
+#include <string>
+#include <type_traits>
+#pragma GCC diagnostic ignored "-Woverflow"
+using occa::primitive;
+template <class T> struct tagof { static int tag() { return -1; } static const char *name() { return "a type occa has no tag for"; } };
+#define TAG(T, t, n) template <> struct tagof<T> { static int tag() { return occa::primitiveType::t; } static const char *name() { return n; } };
+TAG(bool, bool_, "bool") TAG(int, int32_, "int (int32)") TAG(unsigned, uint32_, "unsigned (uint32)")
+TAG(long, int64_, "long (int64)") TAG(unsigned long, uint64_, "unsigned long (uint64)")
+TAG(long long, int64_, "long long (int64)") TAG(unsigned long long, uint64_, "unsigned long long (uint64)")
+TAG(float, float_, "float") TAG(double, double_, "double")
+static const char *tagname(int t) {
+  using namespace occa::primitiveType;
+  switch (t) { case none: return "none"; case bool_: return "bool"; case int8_: return "int8"; case uint8_: return "uint8";
+    case int16_: return "int16"; case uint16_: return "uint16"; case int32_: return "int32"; case uint32_: return "uint32";
+    case int64_: return "int64"; case uint64_: return "uint64"; case float_: return "float"; case double_: return "double";
+    case ptr: return "ptr"; }
+  return "?";
+}
+template <class T> std::string show(T v) {
+  char buf[64];
+  if constexpr (std::is_floating_point<T>::value) snprintf(buf, sizeof buf, "%.17g", (double) v);
+  else if constexpr (std::is_signed<T>::value) snprintf(buf, sizeof buf, "%lld", (long long) v);
+  else snprintf(buf, sizeof buf, "%llu", (unsigned long long) v);
+  return buf; }
+static std::string showp(const primitive &r) {
+  using namespace occa::primitiveType;
+  switch (r.type) { case bool_: return show(r.value.bool_); case int8_: return show(r.value.int8_); case uint8_: return show(r.value.uint8_);
+    case int16_: return show(r.value.int16_); case uint16_: return show(r.value.uint16_); case int32_: return show(r.value.int32_);
+    case uint32_: return show(r.value.uint32_); case int64_: return show(r.value.int64_); case uint64_: return show(r.value.uint64_);
+    case float_: return show(r.value.float_); case double_: return show(r.value.double_); }
+  return "-"; }
+template <class E> bool same_value(const primitive &r, E e) {
+  using namespace occa::primitiveType;
+  if constexpr (std::is_floating_point<E>::value) {
+    double a; if (r.type == float_) a = r.value.float_; else if (r.type == double_) a = r.value.double_; else return false;
+    return a == (double) e && std::signbit(a) == std::signbit((double) e);
+  } else {
+    __int128 v;
+    switch (r.type) { case bool_: v = r.value.bool_; break; case int8_: v = r.value.int8_; break; case uint8_: v = r.value.uint8_; break;
+      case int16_: v = r.value.int16_; break; case uint16_: v = r.value.uint16_; break; case int32_: v = r.value.int32_; break;
+      case uint32_: v = r.value.uint32_; break; case int64_: v = r.value.int64_; break; case uint64_: v = r.value.uint64_; break;
+      default: return false; }
+    return v == (__int128) e;
+  }
+}
+static int found = 0;
+/* text: the literal; follow: what comes after it in the buffer; e: the same literal compiled by the host compiler */
+template <class E> void one(const char *text, const char *follow, E e) {
+  std::string buf = std::string(text) + follow;
+  const char *c = buf.c_str();
+  primitive r; bool raised = false;
+  try { r = primitive::load(c, false); } catch (...) { raised = true; }
+  const long used = c - buf.c_str();
+  const bool bad_type = !raised && r.type != tagof<E>::tag();
+  const bool bad_value = !raised && !same_value(r, e);
+  const bool bad_cursor = !raised && used != (long) strlen(text);
+  const bool bad_source = !raised && r.source != text;
+  if (raised || bad_type || bad_value || bad_cursor || bad_source) {
+    ++found;
+    printf("MISMATCH  %s%s%s%s%s literal %s (followed by \"%s\"):  host g++: %s %s   occa::primitive::load: %s %s, %ld of %zu characters consumed, source \"%s\"\n",
+           raised ? "[raise]" : "", bad_type ? "[type]" : "", bad_value ? "[value]" : "", bad_cursor ? "[cursor]" : "", bad_source ? "[source]" : "",
+           text, follow, tagof<E>::name(), show(e).c_str(), raised ? "EXCEPTION" : tagname(r.type), raised ? "" : showp(r).c_str(),
+           used, strlen(text), r.source.c_str());
+  } else {
+    printf("agree     literal %s: %s %s\n", text, tagname(r.type), showp(r).c_str());
+  }
+}
+int main() {
+@CASES@
+  printf(found ? "REPRODUCED\n" : "not reproduced\n");
+  return found ? 1 : 0;
+}
+'''
+
+# literals a C++ compiler accepts and that the three historical defects and their neighbours live on
+LIT_EDGES = ['0', '1', '2147483647', '2147483648', '3000000000', '4294967295', '4294967296', '9223372036854775807',
+             '2147483648u', '4294967295u', '4294967296u', '18446744073709551615u', '1l', '1ul', '1lu', '1ll', '1ull', '1LLU',
+             '9223372036854775807l', '9223372036854775808ul',
+             '0x7FFFFFFF', '0x80000000', '0xFFFFFFFF', '0x100000000', '0x7FFFFFFFFFFFFFFF', '0xFFFFFFFFFFFFFFFF',
+             '0xFFFFFFFFu', '0x100000000u', '0x1l', '0x8000000000000000l', '0xFFFFFFFFFFFFFFFFll',
+             '017777777777', '020000000000', '037777777777', '040000000000', '01777777777777777777777',
+             '0b1', '0b11111111', '0b10000000000000000000000000000000', '0b11111111111111111111111111111111',
+             '0b100000000000000000000000000000000',
+             '1.5', '1.5f', '.5', '5.', '1e3', '1e+3', '1e-3f', '1.5e3F', 'true', 'false']
+
+
+def literal_program(lits):
+    cases = []
+    for text, follow in lits:
+        if not re.fullmatch(r'[0-9A-Za-z.+\-]+', text) or not re.fullmatch(r'[ -~]*', follow):
+            continue
+        cases.append('  one("%s", "%s", %s);' % (text, follow.replace('\\', '\\\\').replace('"', '\\"'), text))
+    return LIT_PROG.replace('@CASES@', '\n'.join(cases))
+
+
+def literal_from_trace(trace):
+    """The literal text the counterexample put into the harness buffer `c14_text` and its length `c14_n`."""
+    chars, n = {}, None
+    for s in trace or []:
+        if s.get('stepType') != 'assignment':
+            continue
+        lhs = s.get('lhs') or ''
+        m = re.fullmatch(r'c14_text\[(\d+)l?\]', lhs)
+        v = s.get('value') or {}
+        if m and v.get('binary'):
+            chars.setdefault(int(m.group(1)), int(v['binary'].replace(' ', ''), 2))
+        elif lhs == 'c14_text' and v.get('elements'):
+            for e in v['elements']:
+                b = (e.get('value') or {}).get('binary')
+                if b is not None:
+                    chars.setdefault(int(e['index']), int(b.replace(' ', ''), 2))
+        elif lhs == 'c14_n' and n is None and v.get('binary'):
+            n = int(v['binary'].replace(' ', ''), 2)
+    if n is None or any(i not in chars for i in range(n + 1)):
+        return None
+    text = ''.join(chr(chars[i] & 0x7f) for i in range(n))
+    follow = chr(chars[n] & 0x7f) if chars[n] else ''
+    return text, follow
+
+
+def replay_literal(ctx, g, o, inputs):
+    """The counterexample literal (and a fixed list of edge literals) goes through the REAL
+    primitive::load of the freshly built libocca; oracle: the same literal text compiled by the host
+    g++ (decltype and value), both in one program."""
+    lits = []
+    cx = literal_from_trace(o.trace)
+    if cx:
+        lits.append(cx)
+    lits += [(t, '') for t in LIT_EDGES]
+    prog = literal_program(lits)
+    rc, out, src = replaylib.compile_run(ctx, 'replay_literal', prog)
+    p = replaylib.keep_replay_source(ctx, g, prog)
+    lines = [l for l in out.splitlines() if l.startswith('MISMATCH')]
+    kind = ('type' if 'has the type' in o.key else 'value' if 'has the value' in o.key else
+            'cursor' if 'consumed' in o.key else 'raise' if 'no error' in o.key else 'source' if 'spelling' in o.key else '')
+    hit = [l for l in lines if not kind or ('[%s]' % kind) in l]
+    first = bool(cx) and any(('literal %s ' % cx[0]) in l for l in hit)
+    return {'reproduced': rc == 1 and bool(hit), 'counterexample_literal': cx[0] if cx else None,
+            'counterexample_reproduced_itself': first, 'failing_kind': kind,
+            'oracle': 'the same literal text compiled by the host g++ (decltype and value), in the same program',
+            'mismatches': hit[:8], 'program': p, 'output': out[-600:]}
